@@ -418,6 +418,26 @@ def check(pid, tier, seed):
                          {"kind": "hygiene", "what": bad[:20]}))
     axioms_used = sorted({a for t in thm_status for a in (t["assumptions"] or [])})
 
+    # thorough: re-check the compiled property file and everything it depends on with the independent checker
+    coqchk_info = None
+    if tier == "thorough" and ok and not os.environ.get("VERIF_NO_COQCHK"):
+        modname = "GmsmVerif." + m.PROPS[:-2].replace("/", ".")
+        tchk = time.time()
+        with Lock("coq"):
+            rc, out = sh(["coqchk", "-silent", "-o", "-Q", ".", "GmsmVerif", modname], cwd=COQ, timeout=5400)
+        summ = out[out.find("CONTEXT SUMMARY"):] if "CONTEXT SUMMARY" in out else out[-1500:]
+        def section(title):
+            mm = re.search(r"\* " + re.escape(title) + r":(.*?)(?:\n\* |\Z)", summ, re.S)
+            body = mm.group(1).strip() if mm else "?"
+            return [] if body == "<none>" else [l.strip() for l in body.splitlines() if l.strip()]
+        coqchk_info = {"cmd": "coqchk -silent -o -Q . GmsmVerif " + modname, "exit": rc, "wall_s": round(time.time() - tchk, 1),
+                       "axioms": section("Axioms"), "type_in_type": section("Constants/Inductives relying on type-in-type"),
+                       "unsafe_fixpoints": section("Constants/Inductives relying on unsafe (co)fixpoints"),
+                       "assumed_positivity": section("Inductives whose positivity is assumed")}
+        if rc != 0:
+            proofs_ok = False
+            problems.append(("unproved", "coqchk rejects " + modname, {"kind": "proof", "what": "coqchk " + modname, "output": out[-3000:]}))
+
     # ---- (c) correspondence + predicate ----------------------------------------------------------
     legs_ev = []
     total_cases = 0
@@ -574,7 +594,7 @@ def check(pid, tier, seed):
         "property_id": pid, "tier": tier, "seed": seed, "level": "proof",
         "coverage": {
             "obligations": len(theorems), "discharged": discharged,
-            "checker_cmd": "make -C coq %s (coqc 8.16.1, full .vo build; coq/_CoqProject generated by verif.py)" % (m.PROPS[:-2] + ".vo"),
+            "checker_cmd": "make -C coq %s (coqc 8.16.1, full .vo build; coq/_CoqProject generated by verif.py)%s" % (m.PROPS[:-2] + ".vo", "; " + coqchk_info["cmd"] if coqchk_info else ""),
             "trusted_base": list(getattr(m, "TRUSTED_BASE", [])) +
                             ["Coq 8.16.1 kernel incl. vm_compute; no native_compute; no kernel flag changed",
                              "axioms reported by Print Assumptions over all property theorems: " + (", ".join(axioms_used) if axioms_used else "none (Closed under the global context)")],
@@ -585,6 +605,7 @@ def check(pid, tier, seed):
             "generator_stats": stats,
             "correspondence": {"legs": legs_ev, "mismatches": mismatches, "predicate_failures": pred_fail},
             "known_findings_seen": sorted(seen_ids),
+            "coqchk": coqchk_info,
             "translator": gen_info,
             "notes": notes,
         },
